@@ -29,6 +29,7 @@ template <class GC> static void run_smr_program(const Program& P, int nslots, bo
   auto retire_obj = [&](Obj* o) { if (!o) return; xev("retire", id_of(o)); xev("pass"); if (func_retire) GC::template retire<Obj>(o, disposer_fn); else GC::template retire<ObjDisposer>(o); };
   auto thread_body = [&](const std::vector<Op>& ops, bool is_worker) {
     ThreadState<GC> ts(nslots);
+    if (nslots > 8) for (int k = 0; k < nslots; ++k) ts.g[k] = new typename GC::Guard;   // "many guards" variants: guard k really is the k-th guard of the thread (extension blocks for DHP)
     for (auto& o : ops) {
       if (o.name == "prot") { size_t k = (size_t)o.arg(0); if (!ts.attached) continue; if (!ts.g[k]) ts.g[k] = new typename GC::Guard;
         xev("pbeg"); Obj* p = ts.g[k]->protect(W->link[o.arg(1) % NLINK]); xev("pend");
